@@ -23,6 +23,10 @@ CORPUS = [
     ([(0, 1, 65546, None), (3, 1, 1, None)], ""),
     ([(0, 1, 70000, None), (1, 1, 1, None), (0, 2, 65536, None), (3, 1, 2, None)], ""),
     ([(0, 1, 150, None)] + idiom_loop(random.Random(1), 150)[1:] + [(5, 1, 0, None), (1, 1, 1, None)], "Z"),
+    # seeded change C02-selected-stack-u8: more than 252 distinct stacks selected one after the other, a letter carried along
+    # (renumbered indices reach 256 and beyond), pre-executed as a whole and behind a read of standard input
+    ([(0, 3, 24, None)] + [(5, 1, d, None) for d in range(4, 261)] + [(1, 1, 1, None), (1, 1, 1, None)], "xy\n"),
+    ([(5, 1, 0, None), (1, 1, 3, None), (5, 1, 3, None)] + [(5, 1, d, None) for d in range(4, 300)] + [(1, 1, 2, None), (1, 1, 1, None), (1, 1, 2, None)], "Hq\n"),
 ]
 
 
